@@ -368,6 +368,9 @@ class Vmap(Generic[R], GenerativeFunction[R]):
         args: tuple[Any, ...],
     ) -> tuple[Score, R]:
         dim_length = self._static_broadcast_dim_length(self.in_axes, args)
+        if dim_length == 0:
+            # nothing to assess: the only sample of a zero-length map is the empty choice map
+            return jnp.zeros(()), self.get_zero_trace(*args).get_retval()
 
         def _inner(idx, args):
             return self.gen_fn.assess(sample(idx), args)
